@@ -101,10 +101,10 @@ type c05Op struct {
 }
 
 type c05Script struct {
-	Replayer string  `json:"replayer"` // "finite:auto" ...
-	Ops      []c05Op `json:"ops"`
-	HookUS   int     `json:"hook_us,omitempty"`
-	FakeClock bool   `json:"fake_clock,omitempty"`
+	Replayer  string  `json:"replayer"` // "finite:auto" ...
+	Ops       []c05Op `json:"ops"`
+	HookUS    int     `json:"hook_us,omitempty"`
+	FakeClock bool    `json:"fake_clock,omitempty"`
 	// MaxRetries of the client: 0 (unbounded) or a bound that the scripted faults never reach
 	// without an intervening successful connection (each fault costs at most 2 consecutive retries).
 	MaxRetries int `json:"max_retries,omitempty"`
@@ -112,8 +112,8 @@ type c05Script struct {
 	// the client's scanner buffer is compacted and refilled many times between cuts).
 	Pad int `json:"pad,omitempty"`
 	// SlowCallbackUS: the client callback takes up to this many microseconds for every third event.
-	SlowCallbackUS int `json:"slow_callback_us,omitempty"`
-	Payloads bool    `json:"hostile_payloads,omitempty"`
+	SlowCallbackUS int  `json:"slow_callback_us,omitempty"`
+	Payloads       bool `json:"hostile_payloads,omitempty"`
 }
 
 type c05Published struct {
